@@ -120,7 +120,7 @@ package encryptcookie
 // guarantee is the next clause (ciphertext-opens-to-reparsed-value).
 // Replay: /verif/replay/known/c20_reparse_test.go (TestFVCKnownC20Reparse).
 //@ func New$1$2 panics
-//@   modifies jarHas, jarVal, jarAttr, ckKey, ckVal, ckAttr, gcmSealed, readFilled
+//@   modifies jarHas, jarVal, jarAttr, ckKey, ckVal, ckAttr, jcPath, jcExp, gcmSealed, readFilled
 //@   ensures excepted-pass-through: excepted(str(key)) ==> jarVal == old(jarVal) && jarHas == old(jarHas) && jarAttr == old(jarAttr) && gcmSealed == old(gcmSealed)
 //@   ensures client-gets-ciphertext-only: !excepted(str(key)) && old(jarHas[respJar(c)][str(key)]) ==> validKey(cfg.Key) && authentic(cfg.Key, jarVal[respJar(c)][str(key)])
 //@   ensures ciphertext-opens-to-handler-value: !excepted(str(key)) && old(jarHas[respJar(c)][str(key)]) ==> plain(cfg.Key, jarVal[respJar(c)][str(key)]) == old(jarVal[respJar(c)][str(key)])
